@@ -470,7 +470,7 @@ def check_no_memoised_mutables(ctx, rule, roots, what):
 _lifting = []
 
 
-def lift(ctx, rule, label, mod, prop, rules, why, key_filter=None, floor=1):
+def lift(ctx, rule, label, mod, prop, rules, why, key_filter=None, floor=1, soft=False):
     """Where one mechanism carries two properties, the findings of the rules that guard the mechanism are findings of both.
     Runs property `prop`'s rule module on the same repository and re-reports the violations of `rules` (optionally only the instances
     whose key passes key_filter) under `rule`; the number of obligations evaluated is the non-vacuity floor."""
@@ -483,10 +483,15 @@ def lift(ctx, rule, label, mod, prop, rules, why, key_filter=None, floor=1):
     try:
         try:
             mod.run(sub)
-        except AnalysisError:
+        except AnalysisError as ex_l:
             # the other property's run lost its footing: what it established about the lifted rules before that point stands
             if not [v for v in sub.violations if v['rule'] in rules and (key_filter is None or key_filter(v['key']))]:
-                raise
+                if not soft:
+                    raise
+                # soft: the lifted clause cannot be evaluated on this tree - that is the other property's own verdict (its check says so); here it
+                # is recorded in the evidence and this property's own rules go on
+                ctx.note('%s (%s): the rules lifted from %s could not be evaluated on this tree: %s' % (rule, label, prop, str(ex_l)[:240]))
+                return 0
     finally:
         for x in pushed:
             _lifting.remove(x)
@@ -812,3 +817,48 @@ def confirm_scenarios(rule, probs, mapper, irrelevant=()):
         if unknown:
             raise AnalysisError('%s: the function decides on `%s`, which the scenario table of the rule does not know' % (rule, unknown[0][:100]))
     return probs
+
+
+_LAZY_BUILTINS = ('filter', 'map', 'zip', 'reversed', 'iter', 'enumerate')
+
+
+def lazy_iterator_truth_tests(f):
+    """truth tests of a local that only ever holds a lazy iterator (filter / map / zip / reversed / iter / enumerate object, generator
+    expression): such an object is true whether or not it will yield anything, so `if xs:` does not ask "are there any" - [(name, test node)]"""
+    lazy, other = {}, set()
+    nodes = list(f.body_nodes())
+    for n in nodes:
+        if isinstance(n, (ast.Assign, ast.AnnAssign, ast.AugAssign)):
+            tg = n.targets if isinstance(n, ast.Assign) else [n.target]
+            for t in tg:
+                for x in ast.walk(t):
+                    if isinstance(x, ast.Name) and isinstance(x.ctx, ast.Store):
+                        v = getattr(n, 'value', None)
+                        if isinstance(n, ast.Assign) and len(tg) == 1 and t is x and v is not None and (
+                                isinstance(v, ast.GeneratorExp) or (isinstance(v, ast.Call) and isinstance(v.func, ast.Name) and v.func.id in _LAZY_BUILTINS)):
+                            lazy.setdefault(x.id, []).append(n)
+                        else:
+                            other.add(x.id)
+        elif isinstance(n, (ast.For, ast.comprehension)):
+            for x in ast.walk(n.target):
+                if isinstance(x, ast.Name):
+                    other.add(x.id)
+    names = {k for k in lazy if k not in other and k not in f.params()}
+    out = []
+    for n in nodes:
+        tests = []
+        if isinstance(n, (ast.If, ast.While, ast.IfExp)):
+            tests.append(n.test)
+        elif isinstance(n, ast.Assert):
+            tests.append(n.test)
+        for t in tests:
+            stack = [t]
+            while stack:
+                x = stack.pop()
+                if isinstance(x, ast.BoolOp):
+                    stack.extend(x.values)
+                elif isinstance(x, ast.UnaryOp) and isinstance(x.op, ast.Not):
+                    stack.append(x.operand)
+                elif isinstance(x, ast.Name) and x.id in names:
+                    out.append((x.id, n))
+    return out
